@@ -1,7 +1,151 @@
-//! C07 operations (op names start with `c07.`)
-#[allow(unused_imports)]
+//! C07 — modular add / sub / neg / double / mul / halve on `Uint<N>` and `BoxedUint`.
+//!
+//! Line format: `c07.u.<op> <nlimbs> <hex>…` (fixed) and `c07.b.<op> <nlimbs> <hex>…` (boxed).
+//! Fixed results are printed as hex, boxed results as `<nlimbs>:<hex>`.
 use crate::util::*;
+use crypto_bigint::modular::{BoxedMontyForm, BoxedMontyParams, MontyForm, MontyParams};
+use crypto_bigint::{AddMod, BoxedUint, MulMod, NegMod, NonZero, Odd, SubMod, Uint};
 
-pub fn dispatch(_op: &str, _a: &[&str]) -> Option<String> {
-    None
+/// fixed widths of the property: 1,2,3,4,6,8,12,16 limbs
+macro_rules! with_w {
+    ($n:expr, $f:ident, $($args:expr),*) => {
+        match $n {
+            1 => $f::<1>($($args),*),
+            2 => $f::<2>($($args),*),
+            3 => $f::<3>($($args),*),
+            4 => $f::<4>($($args),*),
+            6 => $f::<6>($($args),*),
+            8 => $f::<8>($($args),*),
+            12 => $f::<12>($($args),*),
+            16 => $f::<16>($($args),*),
+            _ => Some("unsupported-width".to_string()),
+        }
+    };
+}
+
+fn fixed<const N: usize>(op: &str, a: &[&str]) -> Option<String> {
+    Some(match (op, a) {
+        ("c07.u.add_mod", [x, y, p]) => {
+            uhex(&arg!(uint::<N>(x)).add_mod(&arg!(uint::<N>(y)), &arg!(uint::<N>(p))))
+        }
+        ("c07.u.add_mod_tr", [x, y, p]) => {
+            uhex(&AddMod::add_mod(&arg!(uint::<N>(x)), &arg!(uint::<N>(y)), &arg!(uint::<N>(p))))
+        }
+        ("c07.u.double_mod", [x, p]) => uhex(&arg!(uint::<N>(x)).double_mod(&arg!(uint::<N>(p)))),
+        ("c07.u.sub_mod", [x, y, p]) => {
+            uhex(&arg!(uint::<N>(x)).sub_mod(&arg!(uint::<N>(y)), &arg!(uint::<N>(p))))
+        }
+        ("c07.u.sub_mod_tr", [x, y, p]) => {
+            uhex(&SubMod::sub_mod(&arg!(uint::<N>(x)), &arg!(uint::<N>(y)), &arg!(uint::<N>(p))))
+        }
+        ("c07.u.neg_mod", [x, p]) => uhex(&arg!(uint::<N>(x)).neg_mod(&arg!(uint::<N>(p)))),
+        ("c07.u.neg_mod_tr", [x, p]) => uhex(&NegMod::neg_mod(&arg!(uint::<N>(x)), &arg!(uint::<N>(p)))),
+        ("c07.u.add_mod_special", [x, y, c]) => {
+            uhex(&arg!(uint::<N>(x)).add_mod_special(&arg!(uint::<N>(y)), arg!(limb(c))))
+        }
+        ("c07.u.sub_mod_special", [x, y, c]) => {
+            uhex(&arg!(uint::<N>(x)).sub_mod_special(&arg!(uint::<N>(y)), arg!(limb(c))))
+        }
+        ("c07.u.neg_mod_special", [x, c]) => uhex(&arg!(uint::<N>(x)).neg_mod_special(arg!(limb(c)))),
+        ("c07.u.mul_mod_special", [x, y, c]) => {
+            uhex(&arg!(uint::<N>(x)).mul_mod_special(&arg!(uint::<N>(y)), arg!(limb(c))))
+        }
+        ("c07.u.mul_mod_vartime", [x, y, p]) => {
+            let p = arg!(Option::<NonZero<Uint<N>>>::from(NonZero::new(arg!(uint::<N>(p)))));
+            uhex(&arg!(uint::<N>(x)).mul_mod_vartime(&arg!(uint::<N>(y)), &p))
+        }
+        ("c07.u.mul_mod_tr", [x, y, p]) => {
+            uhex(&MulMod::mul_mod(&arg!(uint::<N>(x)), &arg!(uint::<N>(y)), &arg!(uint::<N>(p))))
+        }
+        ("c07.u.div_by_2", [x, p]) => {
+            // `div_by_2` is crate-internal; `MontyForm::div_by_2` applies it to the raw
+            // Montgomery representation, which `from_montgomery` / `as_montgomery` expose.
+            let p = arg!(Option::<Odd<Uint<N>>>::from(Odd::new(arg!(uint::<N>(p)))));
+            let params = MontyParams::new_vartime(p);
+            let f = MontyForm::from_montgomery(arg!(uint::<N>(x)), params);
+            uhex(f.div_by_2().as_montgomery())
+        }
+        _ => return None,
+    })
+}
+
+/// `Uint::mul_mod` needs `Concat`, which exists only for particular widths.
+macro_rules! mul_mod_at {
+    ($n:literal, $w:literal, $a:expr) => {{
+        let (x, y, p) = (arg!(uint::<$n>($a[0])), arg!(uint::<$n>($a[1])), arg!(uint::<$n>($a[2])));
+        let p = arg!(Option::<NonZero<Uint<$n>>>::from(NonZero::new(p)));
+        Some(uhex(&x.mul_mod::<$w>(&y, &p)))
+    }};
+}
+
+fn mul_mod_fixed(n: usize, a: &[&str]) -> Option<String> {
+    if a.len() != 3 {
+        return Some(BAD.to_string());
+    }
+    match n {
+        1 => mul_mod_at!(1, 2, a),
+        2 => mul_mod_at!(2, 4, a),
+        3 => mul_mod_at!(3, 6, a),
+        4 => mul_mod_at!(4, 8, a),
+        6 => mul_mod_at!(6, 12, a),
+        8 => mul_mod_at!(8, 16, a),
+        12 => mul_mod_at!(12, 24, a),
+        16 => mul_mod_at!(16, 32, a),
+        _ => Some("unsupported-width".to_string()),
+    }
+}
+
+fn boxed_op(op: &str, n: usize, a: &[&str]) -> Option<String> {
+    if n == 0 || n > 64 {
+        return Some("unsupported-width".to_string());
+    }
+    let bx = |s: &str| boxed(s, n);
+    Some(bhexlen(&match (op, a) {
+        ("c07.b.add_mod", [x, y, p]) => arg!(bx(x)).add_mod(&arg!(bx(y)), &arg!(bx(p))),
+        ("c07.b.add_mod_assign", [x, y, p]) => {
+            let mut r = arg!(bx(x));
+            r.add_mod_assign(&arg!(bx(y)), &arg!(bx(p)));
+            r
+        }
+        ("c07.b.add_mod_tr", [x, y, p]) => AddMod::add_mod(&arg!(bx(x)), &arg!(bx(y)), &arg!(bx(p))),
+        ("c07.b.double_mod", [x, p]) => arg!(bx(x)).double_mod(&arg!(bx(p))),
+        ("c07.b.sub_mod", [x, y, p]) => arg!(bx(x)).sub_mod(&arg!(bx(y)), &arg!(bx(p))),
+        ("c07.b.sub_mod_tr", [x, y, p]) => SubMod::sub_mod(&arg!(bx(x)), &arg!(bx(y)), &arg!(bx(p))),
+        ("c07.b.neg_mod", [x, p]) => arg!(bx(x)).neg_mod(&arg!(bx(p))),
+        ("c07.b.neg_mod_tr", [x, p]) => NegMod::neg_mod(&arg!(bx(x)), &arg!(bx(p))),
+        ("c07.b.sub_mod_special", [x, y, c]) => arg!(bx(x)).sub_mod_special(&arg!(bx(y)), arg!(limb(c))),
+        ("c07.b.neg_mod_special", [x, c]) => arg!(bx(x)).neg_mod_special(arg!(limb(c))),
+        ("c07.b.mul_mod_special", [x, y, c]) => arg!(bx(x)).mul_mod_special(&arg!(bx(y)), arg!(limb(c))),
+        ("c07.b.mul_mod", [x, y, p]) => arg!(bx(x)).mul_mod(&arg!(bx(y)), &arg!(bx(p))),
+        ("c07.b.mul_mod_tr", [x, y, p]) => MulMod::mul_mod(&arg!(bx(x)), &arg!(bx(y)), &arg!(bx(p))),
+        ("c07.b.div_by_2", [x, p]) => {
+            let p = arg!(Option::<Odd<BoxedUint>>::from(Odd::new(arg!(bx(p)))));
+            let f = BoxedMontyForm::from_montgomery(arg!(bx(x)), BoxedMontyParams::new_vartime(p));
+            f.div_by_2().as_montgomery().clone()
+        }
+        ("c07.b.div_by_2_assign", [x, p]) => {
+            let p = arg!(Option::<Odd<BoxedUint>>::from(Odd::new(arg!(bx(p)))));
+            let mut f = BoxedMontyForm::from_montgomery(arg!(bx(x)), BoxedMontyParams::new_vartime(p));
+            f.div_by_2_assign();
+            f.as_montgomery().clone()
+        }
+        _ => return None,
+    }))
+}
+
+pub fn dispatch(op: &str, a: &[&str]) -> Option<String> {
+    if a.is_empty() {
+        return None;
+    }
+    let n = arg!(dec(a[0]));
+    let rest = &a[1..];
+    if op == "c07.u.mul_mod" {
+        mul_mod_fixed(n, rest)
+    } else if op.starts_with("c07.u.") {
+        with_w!(n, fixed, op, rest)
+    } else if op.starts_with("c07.b.") {
+        boxed_op(op, n, rest)
+    } else {
+        None
+    }
 }
